@@ -64,6 +64,7 @@ class Raised(Exception):
     def __init__(self, kind, detail=""):
         super().__init__(f"{kind}: {detail}")
         self.kind = kind
+        self.detail = detail
 
 
 def _join(*parts):
@@ -113,7 +114,7 @@ PURE_EXTERNAL = {
     "os.path.dirname": os.path.dirname,
     "os.fspath": lambda p: _fspath(p),
     "shlex.quote": lambda s: tok("quote:" + s) if "⟦" in s else shlex.quote(s),
-    "re.sub": re.sub, "re.findall": re.findall, "re.search": re.search, "re.match": re.match, "re.fullmatch": re.fullmatch,
+    "re.compile": re.compile, "re.sub": re.sub, "re.findall": re.findall, "re.search": re.search, "re.match": re.match, "re.fullmatch": re.fullmatch,
     "copy.copy": lambda x: x.copy() if hasattr(x, "copy") else x,
     "unicodedata.category": unicodedata.category,
     "collections.ChainMap": ChainMap,
@@ -135,6 +136,7 @@ SAFE_METHODS = {
     frozenset: {"union", "issuperset", "issubset", "difference", "intersection"},
     tuple: {"index", "count"},
     bytes: {"decode"},
+    re.Pattern: {"fullmatch", "match", "search", "sub", "findall"},
     ChainMap: {"get", "items", "keys", "values", "pop", "update", "new_child"},
 }
 
@@ -285,7 +287,9 @@ class PureInterp:
             except Raised as r:
                 for h in st.handlers:
                     names = [dotted(e) for e in (h.type.elts if isinstance(h.type, ast.Tuple) else [h.type])] if h.type is not None else [None]
-                    if None in names or r.kind in [n.rsplit(".", 1)[-1] for n in names if n] or "Exception" in names:
+                    if None in names or r.kind in [n.rsplit(".", 1)[-1] for n in names if n] or "Exception" in names or self._handler_matches(r, h, module):
+                        if h.name:
+                            env[h.name] = Obj("exc:" + r.kind, args=(r.detail,))
                         self.block(h.body, env, module, depth)
                         break
                 else:
@@ -322,10 +326,35 @@ class PureInterp:
             o = self.eval(t.value, env, module, depth)
             if isinstance(o, Obj):
                 setattr(o, t.attr, v)
+            elif isinstance(o, FuncRef):
+                self.events.append(("setattr", o.name + "." + t.attr, v))
             else:
                 raise Unsupported("attribute store")
         else:
             raise Unsupported("assignment target")
+
+    def _handler_matches(self, raised, handler, module):
+        """Class-hierarchy match of a raised exception kind (short or canonical name) against a handler clause."""
+        from .paths import Hierarchy
+        hier = Hierarchy(self.index)
+        kind = raised.kind
+        cands = [kind] if "." in kind else [k for k in (f"builtins.{kind}", f"asyncio.{kind}", f"click.{kind}", f"click.exceptions.{kind}") ]
+        if "." not in kind:
+            for ci in self.index.classes.values():
+                if ci.name == kind:
+                    cands.append(f"{ci.module.name}.{ci.name}")
+        types = handler.type.elts if isinstance(handler.type, ast.Tuple) else [handler.type]
+        for e in types:
+            hc = self.index.canon(e, module) if isinstance(e, (ast.Name, ast.Attribute)) else None
+            if hc is None:
+                continue
+            for c in cands:
+                try:
+                    if hier.is_sub(c, hc):
+                        return True
+                except Exception:
+                    continue
+        return False
 
     # ------------------------------------------------------------------ expressions
     def truth(self, v):
@@ -377,7 +406,10 @@ class PureInterp:
             try:
                 return self.ev.eval(obj[2], obj[1])
             except CantEval:
-                return Obj("opaque:" + n.id)  # e.g. logger = logging.getLogger(__name__)
+                try:
+                    return self.eval(obj[2], {}, obj[1], depth + 1)  # e.g. _PATTERN = re.compile(...)
+                except (Unsupported, Raised):
+                    return Obj("opaque:" + n.id)  # e.g. logger = logging.getLogger(__name__)
         if isinstance(obj, (FuncInfo, ClassInfo)):
             return obj
         return FuncRef(canon)
@@ -422,6 +454,8 @@ class PureInterp:
             return FuncRef(o.name + "." + n.attr)
         if isinstance(o, ChainMap) and n.attr == "maps":
             return o.maps
+        if ("getattr:" + n.attr) in self.hooks:
+            return self.hooks["getattr:" + n.attr](o)
         return ("method", o, n.attr)
 
     def e_JoinedStr(self, n, env, module, depth):
